@@ -1,5 +1,443 @@
+// C11 mode: models.NewPoint -> String()/PrecisionString -> ParsePointsWithPrecision, and
+// MakeKey -> ParseKeyBytes, on generated points; the printed bytes, the reparsed point
+// (through its public accessors) and the key round trip go to the Coq judge of Model/C11.v.
 package main
 
-import "verifh/vh"
+import (
+	"bytes"
+	"fmt"
+	"math"
+	"sort"
+	"strconv"
+	"strings"
+	"time"
 
-func main11(w *vh.W) { w.Finish() }
+	"github.com/influxdata/influxdb/v2/models"
+	"verifh/vh"
+)
+
+const (
+	sigBackslash = "lp-backslash-not-escaped"
+	sigResort    = "lp-tags-resorted-by-escaped-key"
+	sigToken     = "newpoint-accepts-unrepresentable-token"
+)
+
+type j11 struct {
+	Name   []byte     `json:"name"`
+	NameQ  string     `json:"name_q"`
+	Tags   [][2][]byte `json:"tags"` // as given to NewTags (a map: unique keys)
+	TagsQ  []string   `json:"tags_q"`
+	Fields []jfield   `json:"fields"` // a map: unique keys
+	Time   *int64     `json:"time"`   // nil = zero time.Time
+	Prec   string     `json:"precision"`
+	Dflt   int64      `json:"default_time"`
+
+	NPErr    string   `json:"impl_newpoint_err,omitempty"`
+	Printed  []byte   `json:"impl_printed"`
+	PrintedQ string   `json:"impl_printed_q"`
+	Points   []jview  `json:"impl_points"`
+	Rej      [][]byte `json:"impl_rejected"`
+	Reasons  []string `json:"impl_reasons"`
+	Key      []byte   `json:"impl_makekey"`
+	KeyQ     string   `json:"impl_makekey_q"`
+	PKName   []byte   `json:"impl_parsekey_name"`
+	PKTags   []jtag   `json:"impl_parsekey_tags"`
+}
+
+func goValue(f jfield) interface{} {
+	switch f.Type {
+	case "int":
+		return f.I
+	case "uint":
+		return f.U
+	case "float":
+		return math.Float64frombits(f.F)
+	case "bool":
+		return f.B
+	}
+	return string(f.S)
+}
+
+// ---- the guard, decided from the inputs only ----
+
+func bslUnsafe(b []byte, stops string) bool {
+	for i, c := range b {
+		if c == '\\' && (i+1 == len(b) || strings.IndexByte(stops, b[i+1]) >= 0) {
+			return true
+		}
+	}
+	return false
+}
+
+func escTag(b []byte) string {
+	r := strings.NewReplacer(",", `\,`, " ", `\ `, "=", `\=`)
+	return r.Replace(string(b))
+}
+
+func guardSig(c *j11, sortedTags models.Tags, fieldKeys []string) string {
+	bs := bslUnsafe(c.Name, `," =`)
+	for _, t := range sortedTags {
+		bs = bs || bslUnsafe(t.Key, ", =") || bslUnsafe(t.Value, ", =")
+	}
+	for _, k := range fieldKeys {
+		bs = bs || bslUnsafe([]byte(k), `," =`)
+	}
+	if bs {
+		return sigBackslash
+	}
+	tok := len(c.Name) == 0 || c.Name[0] == '#' || c.Name[0] == '\t' || c.Name[0] == 0 || bytes.IndexByte(c.Name, '\n') >= 0
+	for _, t := range sortedTags {
+		tok = tok || len(t.Key) == 0 || len(t.Value) == 0 || bytes.IndexByte(t.Key, '\n') >= 0 || bytes.IndexByte(t.Value, '\n') >= 0
+		for _, r := range []string{"time", "_field", "_measurement", "\xff", "\x00"} {
+			tok = tok || string(t.Key) == r
+		}
+	}
+	for i, k := range fieldKeys {
+		tok = tok || strings.IndexByte(k, '\n') >= 0 || (i == 0 && len(k) > 0 && (k[0] == '\t' || k[0] == 0))
+	}
+	if tok {
+		return sigToken
+	}
+	for i := 1; i < len(sortedTags); i++ {
+		if escTag(sortedTags[i-1].Key) >= escTag(sortedTags[i].Key) {
+			return sigResort
+		}
+	}
+	return ""
+}
+
+func run11(w *vh.W, c *j11) {
+	idx := w.Len()
+	c.NameQ = q(c.Name)
+	c.Points, c.Rej, c.Reasons, c.PKTags, c.TagsQ = nil, nil, nil, nil, nil
+	tm := map[string]string{}
+	for _, t := range c.Tags {
+		tm[string(t[0])] = string(t[1])
+		c.TagsQ = append(c.TagsQ, q(t[0])+"="+q(t[1]))
+	}
+	tags := models.NewTags(tm)
+	fields := models.Fields{}
+	var fkeys []string
+	for i := range c.Fields {
+		c.Fields[i].KeyQ = q(c.Fields[i].Key)
+		fields[string(c.Fields[i].Key)] = goValue(c.Fields[i])
+	}
+	for k := range fields {
+		fkeys = append(fkeys, k)
+	}
+	sort.Strings(fkeys)
+	byKey := map[string]jfield{}
+	for _, f := range c.Fields {
+		byKey[string(f.Key)] = f
+	}
+	var t time.Time
+	if c.Time != nil {
+		t = time.Unix(0, *c.Time).UTC()
+	}
+
+	var p models.Point
+	var nperr error
+	if fail := guarded(func() { p, nperr = models.NewPoint(string(c.Name), tags, fields, t) }); fail != "" {
+		w.Fail(idx, "NewPoint: "+fail, "")
+	}
+	c.NPErr = ""
+	c.Printed = nil
+	if nperr != nil {
+		c.NPErr = nperr.Error()
+	} else if p != nil {
+		fail := guarded(func() {
+			if c.Prec == "ns" {
+				c.Printed = []byte(p.String())
+				if a := p.AppendString(nil); !bytes.Equal(a, c.Printed) {
+					w.Fail(idx, "AppendString differs from String()", "")
+				}
+				if c.Time != nil && p.StringSize() != len(c.Printed) {
+					w.Fail(idx, "StringSize differs from len(String())", "")
+				}
+			} else {
+				c.Printed = []byte(p.PrecisionString(c.Prec))
+			}
+			pts, err := models.ParsePointsWithPrecision(clone(c.Printed), time.Unix(0, c.Dflt).UTC(), c.Prec)
+			for _, x := range pts {
+				c.Points = append(c.Points, render(x))
+			}
+			if err != nil {
+				texts, reasons, ok := splitErr(err.Error())
+				if !ok {
+					w.Fail(idx, "error format of ParsePointsWithPrecision: "+q([]byte(err.Error())), "")
+				}
+				c.Rej, c.Reasons = texts, reasons
+			}
+		})
+		if fail != "" {
+			w.Fail(idx, "String/ParsePointsWithPrecision: "+fail, "")
+		}
+	}
+	c.PrintedQ = q(c.Printed)
+	if fail := guarded(func() {
+		c.Key = models.MakeKey(clone(c.Name), tags)
+		n, ts := models.ParseKeyBytes(clone(c.Key))
+		c.PKName = clone(n)
+		for _, t := range ts {
+			c.PKTags = append(c.PKTags, jtag{K: clone(t.Key), V: clone(t.Value), KQ: q(t.Key), VQ: q(t.Value)})
+		}
+		if n2 := models.ParseName(clone(c.Key)); !bytes.Equal(n2, n) {
+			w.Fail(idx, "ParseName differs from ParseKeyBytes name", "")
+		}
+	}); fail != "" {
+		w.Fail(idx, "MakeKey/ParseKeyBytes: "+fail, "")
+	}
+	c.KeyQ = q(c.Key)
+
+	// ---- the Gallina case ----
+	tg := make([]string, len(tags))
+	for i, t := range tags {
+		tg[i] = vh.Pair(vh.Bytes(t.Key), vh.Bytes(t.Value))
+	}
+	fs := make([]string, len(fkeys))
+	var ftab []string
+	for i, k := range fkeys {
+		f := byKey[k]
+		fs[i] = vh.Pair(vh.Bytes([]byte(k)), fvalTerm(f))
+		if f.Type == "float" {
+			// the external float printer, tabulated on the values of this point
+			ftab = append(ftab, vh.Pair(vh.N(f.F), vh.Bytes(strconv.AppendFloat(nil, math.Float64frombits(f.F), 'f', -1, 64))))
+		}
+	}
+	tt := "None"
+	if c.Time != nil {
+		tt = vh.Some(vh.Z(*c.Time))
+	}
+	pv := make([]string, len(c.Points))
+	for i, v := range c.Points {
+		pv[i] = viewTerm(v)
+	}
+	rj := make([]string, len(c.Rej))
+	for i, x := range c.Rej {
+		rj[i] = vh.Bytes(x)
+	}
+	pk := make([]string, len(c.PKTags))
+	for i, x := range c.PKTags {
+		pk[i] = vh.Pair(vh.Bytes(x.K), vh.Bytes(x.V))
+	}
+	term := fmt.Sprintf("{| k_pt := {| a_name := %s; a_tags := %s; a_fields := %s; a_time := %s |}; k_prec := %s; k_dflt := %s; k_ftab := %s; k_np_ok := %s; k_printed := %s; k_points := %s; k_rejected := %s; k_key := %s; k_pk_name := %s; k_pk_tags := %s |}",
+		vh.Bytes(c.Name), vh.List(tg), vh.List(fs), tt, vh.N(precCode(c.Prec)), vh.Z(c.Dflt), vh.List(ftab), vh.Bool(nperr == nil),
+		vh.Bytes(c.Printed), vh.List(pv), vh.List(rj), vh.Bytes(c.Key), vh.Bytes(c.PKName), vh.List(pk))
+	sig := guardSig(c, tags, fkeys)
+	nontrivial := nperr == nil && (len(tags) > 0 || len(fkeys) > 1) && bytes.ContainsAny(append(append(clone(c.Name), c.Key...), c.Printed...), `\,= "`)
+	w.Add(term, c, nontrivial, sig)
+	w.Count("precision", c.Prec)
+	w.Count("ntags", fmt.Sprint(len(tags)))
+	w.Count("nfields", fmt.Sprint(len(fkeys)))
+	for _, f := range c.Fields {
+		w.Count("ftype", f.Type)
+	}
+	w.Count("newpoint_ok", fmt.Sprint(nperr == nil))
+	w.Count("time", map[bool]string{true: "zero", false: "set"}[c.Time == nil])
+	w.Count("reparsed", fmt.Sprintf("%dpts/%drej", len(c.Points), len(c.Rej)))
+	if sig == "" {
+		w.Count("guard", "valid")
+	} else {
+		w.Count("guard", sig)
+	}
+}
+
+// ---- generator ----
+
+var alpha11 = []string{"a", "b", " ", ",", "=", `"`, `\`, "é"}
+
+type gen11 struct{ w *vh.W }
+
+func (g gen11) n(k int) int              { return g.w.Rng.IntN(k) }
+func (g gen11) pick(xs ...string) string { return xs[g.n(len(xs))] }
+
+// str: length 0..5 over the alphabet; tame = mostly letters (so that most points are valid)
+func (g gen11) str(minLen int, tame bool) []byte {
+	var b strings.Builder
+	k := minLen + g.n(6-minLen)
+	if g.n(3) != 0 && k > 3 {
+		k = 1 + g.n(3)
+	}
+	for i := 0; i < k; i++ {
+		if tame && g.n(3) != 0 {
+			b.WriteString(g.pick("a", "b", "é"))
+		} else {
+			b.WriteString(g.pick(alpha11...))
+		}
+	}
+	return []byte(b.String())
+}
+
+// safe: repair a string so that it satisfies the guard (no backslash before a stop byte or at the end)
+func safe(b []byte, stops string) []byte {
+	out := []byte{}
+	for i, c := range b {
+		if c == '\\' && (i+1 == len(b) || strings.IndexByte(stops, b[i+1]) >= 0) {
+			out = append(out, 'a')
+		} else {
+			out = append(out, c)
+		}
+	}
+	return out
+}
+
+var floats = []float64{0, math.Copysign(0, -1), 1, -1, 1.5, 0.1, -0.30000000000000004, 3, 1e6, 123456789, 9007199254740992, 9007199254740993, 1e21, 1e22, 1.7976931348623157e308, -1.7976931348623157e308,
+	5e-324, 2.2250738585072014e-308, 2.225073858507201e-308, 1e-7, 1e-320, 6.02214076e23, 1234.5678, math.Pi, 4.35, 0.000001, 1e23, 8.41e21, 2e-323, 9.5367431640625e-07}
+var ints = []int64{0, 1, -1, 42, math.MaxInt64, math.MinInt64, math.MaxInt64 - 1, math.MinInt64 + 1, 999999999999999999, 1000000000000000000, -999999999999999999, -1000000000000000000, 1234567890123456789}
+var uints = []uint64{0, 1, 42, math.MaxUint64, math.MaxUint64 - 1, 9999999999999999999, 10000000000000000000, 1 << 63, 1<<63 - 1}
+var times11 = []int64{0, 1, -1, 1000, 1000000, 1000000000, 1700000000000000000, 1700000000123456789, -1700000000123456789, 999, -999, 1999999999, -1999999999,
+	models.MinNanoTime, models.MaxNanoTime, models.MinNanoTime + 1, models.MaxNanoTime - 1, math.MinInt64, math.MinInt64 + 1, math.MaxInt64, 9223372036000000000, -9223372036000000000, 9223372036854775000, -9223372036854775000}
+
+func (g gen11) field(key []byte) jfield {
+	f := jfield{Key: key}
+	switch g.n(5) {
+	case 0:
+		f.Type = "int"
+		f.I = ints[g.n(len(ints))]
+		if g.n(3) == 0 {
+			f.I = int64(g.w.Rng.Uint64())
+		}
+	case 1:
+		f.Type = "uint"
+		f.U = uints[g.n(len(uints))]
+		if g.n(3) == 0 {
+			f.U = g.w.Rng.Uint64()
+		}
+	case 2:
+		f.Type = "float"
+		x := floats[g.n(len(floats))]
+		if g.n(3) == 0 {
+			x = math.Float64frombits(g.w.Rng.Uint64())
+		}
+		if g.n(40) == 0 {
+			x = []float64{math.NaN(), math.Inf(1), math.Inf(-1)}[g.n(3)]
+		}
+		f.F = math.Float64bits(x)
+		f.FQ = fmt.Sprint(x)
+	case 3:
+		f.Type = "bool"
+		f.B = g.n(2) == 0
+	default:
+		f.Type = "string"
+		f.S = g.str(0, false)
+		if g.n(6) == 0 {
+			f.S = append(f.S, g.pick("\n", "\nx", "\\\n", "\"\n", "\t", "#")...)
+		}
+		f.SQ = q(f.S)
+	}
+	return f
+}
+
+func (g gen11) point() j11 {
+	// wild: tokens straight from the alphabet (guard often violated); otherwise repaired to satisfy the guard
+	wild := g.n(4) == 0
+	tok := func(minLen int, stops string) []byte {
+		s := g.str(minLen, !wild)
+		if !wild {
+			s = safe(s, stops)
+		}
+		return s
+	}
+	c := j11{Name: tok(1, `," =`), Prec: g.pick("ns", "ns", "us", "ms", "s"), Dflt: []int64{1700000000123456789, 0, -1234567890123456}[g.n(3)]}
+	if wild && g.n(6) == 0 {
+		c.Name = g.str(0, false)
+	}
+	nt := g.n(4)
+	seen := map[string]bool{}
+	for i := 0; i < nt; i++ {
+		k, v := tok(1, ", ="), tok(1, ", =")
+		if wild && g.n(8) == 0 {
+			k = g.str(0, false)
+		}
+		if wild && g.n(8) == 0 {
+			v = g.str(0, false)
+		}
+		if g.n(5) == 0 && len(c.Tags) > 0 { // keys sharing a prefix, differing in an escaped / unescaped byte
+			base := c.Tags[g.n(len(c.Tags))][0]
+			k = append(clone(base[:len(base)-min(1, len(base))]), g.pick(" ", `"`, ",", "=", "a", "!")...)
+		}
+		if seen[string(k)] {
+			continue
+		}
+		seen[string(k)] = true
+		c.Tags = append(c.Tags, [2][]byte{k, v})
+	}
+	nf := 1 + g.n(3)
+	if g.n(30) == 0 {
+		nf = 0
+	}
+	seenf := map[string]bool{}
+	for i := 0; i < nf; i++ {
+		k := tok(1, `," =`)
+		if wild && g.n(10) == 0 {
+			k = g.str(0, false)
+		}
+		if seenf[string(k)] {
+			continue
+		}
+		seenf[string(k)] = true
+		c.Fields = append(c.Fields, g.field(k))
+	}
+	if g.n(5) != 0 {
+		t := times11[g.n(len(times11))]
+		if g.n(3) == 0 {
+			t = int64(g.w.Rng.Uint64() >> uint(1+g.n(40)))
+			if g.n(2) == 0 {
+				t = -t
+			}
+		}
+		if g.n(2) == 0 { // a multiple of the precision unit
+			m := models.GetPrecisionMultiplier(c.Prec)
+			t = t / m * m
+		}
+		c.Time = &t
+	}
+	return c
+}
+
+func corpus11() []j11 {
+	i1 := jfield{Key: []byte("f"), Type: "int", I: 1}
+	tp := func(v int64) *int64 { return &v }
+	mk := func(name string, tags [][2]string, fields []jfield, t *int64, prec string) j11 {
+		c := j11{Name: []byte(name), Fields: fields, Time: t, Prec: prec, Dflt: 1700000000123456789}
+		for _, kv := range tags {
+			c.Tags = append(c.Tags, [2][]byte{[]byte(kv[0]), []byte(kv[1])})
+		}
+		return c
+	}
+	return []j11{
+		mk("cpu", [][2]string{{"host", "a b"}, {"region", "x,y=z"}}, []jfield{i1, {Key: []byte("g h"), Type: "string", S: []byte("q\"\\\n,= ")}, {Key: []byte("u"), Type: "uint", U: math.MaxUint64}, {Key: []byte("x"), Type: "float", F: math.Float64bits(-0.1)}, {Key: []byte("b"), Type: "bool", B: true}}, tp(1700000000123456789), "ns"),
+		mk("m", [][2]string{{"t", `a\`}}, []jfield{i1}, tp(5), "ns"),                   // F11: trailing backslash in a tag value
+		mk(`m\`, nil, []jfield{i1}, tp(5), "ns"),                                        // ... in the measurement
+		mk("m", nil, []jfield{{Key: []byte(`f\`), Type: "int", I: 1}}, tp(5), "ns"),     // ... in a field key
+		mk(`m\,x`, nil, []jfield{i1}, tp(5), "ns"),                                      // backslash before a delimiter
+		mk("m", [][2]string{{"a ", "x"}, {`a"`, "y"}}, []jfield{i1}, tp(5), "ns"),       // order flips under escaping
+		mk("#m", nil, []jfield{i1}, tp(5), "ns"), mk("\tm", nil, []jfield{i1}, tp(5), "ns"), mk("", nil, []jfield{i1}, tp(5), "ns"),
+		mk("m", [][2]string{{"", "x"}}, []jfield{i1}, tp(5), "ns"), mk("m", [][2]string{{"k", ""}}, []jfield{i1}, tp(5), "ns"),
+		mk("m", [][2]string{{"time", "x"}}, []jfield{i1}, tp(5), "ns"), mk("m", [][2]string{{"k", "a\nb"}}, []jfield{i1}, tp(5), "ns"),
+		mk("m", nil, []jfield{{Key: []byte("\tf"), Type: "int", I: 1}}, tp(5), "ns"),
+		mk("m", nil, nil, tp(5), "ns"), mk("m", nil, []jfield{{Key: []byte(""), Type: "int", I: 1}}, tp(5), "ns"),
+		mk("m", nil, []jfield{i1}, nil, "s"), mk("m", nil, []jfield{i1}, tp(1999999999), "s"), mk("m", nil, []jfield{i1}, tp(-1999999999), "ms"),
+		mk("m", nil, []jfield{i1}, tp(math.MinInt64), "ns"), mk("m", nil, []jfield{i1}, tp(models.MinNanoTime), "us"), mk("m", nil, []jfield{i1}, tp(models.MaxNanoTime), "s"),
+	}
+}
+
+func main11(w *vh.W) {
+	w.Rule = "points generated for models.NewPoint: measurement, 0-3 tags (through NewTags), 1-3 fields (a map), over the alphabet {a b space , = \" \\ é} with lengths 0-5 (3/4 of the points repaired to satisfy the guard, 1/4 raw: guard-violating shapes carry a known-finding signature decided from the inputs); tag keys sharing a prefix and differing in an escaped vs unescaped byte; all five field types with extremes (MinInt64/MaxInt64, MaxUint64, +-0, max/min/subnormal floats, random bit patterns, NaN/Inf for the NewPoint rejection), strings with quotes/backslashes/newlines; zero time and times at the int64 / MinNanoTime / MaxNanoTime edges, multiples and non-multiples of the precision unit; precisions ns us ms s (String() for ns, PrecisionString otherwise); hand-picked corpus first. Non-trivial: NewPoint accepts, the point has a tag or >=2 fields, and an escapable byte occurs. Distinct: distinct Gallina terms."
+	var rc j11
+	if w.ReplayCase(&rc) {
+		run11(w, &rc)
+		w.Finish()
+		return
+	}
+	for _, c := range corpus11() {
+		c := c
+		run11(w, &c)
+	}
+	g := gen11{w}
+	for w.Len() < w.N {
+		c := g.point()
+		run11(w, &c)
+	}
+	w.Finish()
+}
